@@ -286,6 +286,36 @@ type monC03 struct {
 func (m *monC03) Name() string { return "C03" }
 func (m *monC03) Init(w *World) {
 	m.terminal, m.lastSt = map[uint64]string{}, map[uint64]int{}
+	// an export may be taken while orders are raised or accepted: the chain started from it has to
+	// carry them on (shadowOrders)
+	w.armedShadow = w.armedShadow || w.PropOverride == "C03"
+}
+
+// shadowOrders: on a chain initialised from an export of the reference chain and fed the same
+// blocks, every order is in the status it has on the reference chain, the queues hold the same
+// orders and purchasers have been credited the same locked eFUND.
+func shadowOrders(w, wb *World) {
+	ka, kb := w.Ref.App.EnterpriseKeeper, wb.Ref.App.EnterpriseKeeper
+	ca, cb := w.CCtx(), wb.CCtx()
+	for _, id := range w.M.Ent.orderIds() {
+		a, fa := ka.GetPurchaseOrder(ca, id)
+		b, fb := kb.GetPurchaseOrder(cb, id)
+		if fa != fb || a.Status != b.Status || a.CompletionTime != b.CompletionTime || len(a.Decisions) != len(b.Decisions) {
+			wb.Violate("C03", "C03/order-differs", "order %d: status %d completion %d decisions %d on the exporting chain, status %d completion %d decisions %d (found=%v)", id, a.Status, a.CompletionTime, len(a.Decisions), b.Status, b.CompletionTime, len(b.Decisions), fb)
+			return
+		}
+	}
+	if fmt.Sprint(ka.GetAllRaisedPurchaseOrders(ca)) != fmt.Sprint(kb.GetAllRaisedPurchaseOrders(cb)) || fmt.Sprint(ka.GetAllAcceptedPurchaseOrders(ca)) != fmt.Sprint(kb.GetAllAcceptedPurchaseOrders(cb)) {
+		wb.Violate("C03", "C03/queues-differ", "raised %v accepted %v on the exporting chain, raised %v accepted %v", ka.GetAllRaisedPurchaseOrders(ca), ka.GetAllAcceptedPurchaseOrders(ca), kb.GetAllRaisedPurchaseOrders(cb), kb.GetAllAcceptedPurchaseOrders(cb))
+		return
+	}
+	la, lb := lockedMap(w, ca), lockedMap(wb, cb)
+	for _, p := range sortedKeys(la) {
+		if lb[p] == nil || la[p].Cmp(lb[p]) != 0 {
+			wb.Violate("C03", "C03/credited-locked-differs", "%s holds %s locked eFUND on the exporting chain, %v", p, la[p], lb[p])
+			return
+		}
+	}
 }
 
 var c03Rules = map[string]bool{"ent.raise/not-whitelisted": true, "ent.decide/not-authorised": true, "ent.decide/unknown-order": true, "ent.decide/not-raised": true, "ent.decide/already-decided": true, "ent.whitelist/not-authorised": true}
@@ -515,7 +545,11 @@ func escrowBalance(w *World, ctx sdk.Context, denom string) *big.Int {
 	return w.Ref.App.BankKeeper.GetBalance(ctx, ModuleAddr(enttypes.ModuleName), denom).Amount.BigInt()
 }
 
-func (m *monC04) Init(w *World) { m.escrowPre = escrowBalance(w, w.DCtx(), w.M.Ent.Denom) }
+func (m *monC04) Init(w *World) {
+	m.escrowPre = escrowBalance(w, w.DCtx(), w.M.Ent.Denom)
+	// the books have to balance on a chain started from an export as well
+	w.armedShadow = w.armedShadow || w.PropOverride == "C04"
+}
 
 func (m *monC04) AfterBegin(w *World, _ abci.ResponseBeginBlock) {
 	ctx := w.DCtx()
